@@ -68,6 +68,23 @@ class Builder:
     def p_underbrace(self, a, b): return f"<munder><munder>{a}<mo>⏟</mo></munder>{b}</munder>"
     def p_interval(self, a, b): return f"<mo>(</mo>{a}<mo>,</mo>{b}<mo>)</mo>"
     def p_mfencedlist(self, a, b, c): return f"<mfenced>{a}{b}{c}</mfenced>"
+    def p_multiscripts(self, a, b, c, d): return f"<mmultiscripts><mi>X</mi>{a}{b}<mprescripts/>{c}{d}</mmultiscripts>"
+    def p_overarrow(self, a): return f"<mover>{a}<mo>→</mo></mover>"
+    def p_hat(self, a): return f"<mover accent='true'>{a}<mo>^</mo></mover>"
+    def p_cases(self, a, b, c, d): return (f"<mi>g</mi><mo>=</mo><mo>{{</mo><mtable columnalign='left'><mtr><mtd>{a}</mtd><mtd><mtext>if </mtext><mi>t</mi><mo>&lt;</mo>{b}</mtd></mtr>"
+                                           f"<mtr><mtd>{c}</mtd><mtd><mtext>if </mtext><mi>t</mi><mo>≥</mo>{d}</mtd></mtr></mtable>")
+    def p_det2x2(self, a, b, c, d): return f"<mo>|</mo><mtable><mtr><mtd>{a}</mtd><mtd>{b}</mtd></mtr><mtr><mtd>{c}</mtd><mtd>{d}</mtd></mtr></mtable><mo>|</mo>"
+    def p_labeledrow(self, a, b): return f"<mtable><mlabeledtr><mtd><mtext>(7)</mtext></mtd><mtd>{a}<mo>=</mo>{b}</mtd></mlabeledtr></mtable>"
+    def p_percent(self, a): return f"{a}<mo>%</mo><mo>+</mo><mi>w</mi>"
+    def p_degrees(self, a): return f"<mi>sin</mi><mo>&#x2061;</mo><msup>{a}<mo>°</mo></msup>"
+    def p_prime(self, a): return f"<msup><mi>f</mi><mo>′</mo></msup><mo>&#x2061;</mo><mrow><mo>(</mo>{a}<mo>)</mo></mrow>"
+    def p_logbase(self, a, b): return f"<msub><mi>log</mi>{a}</msub><mo>&#x2061;</mo>{b}"
+    def p_contfrac(self, a, b, c): return f"<mfrac><mn>1</mn><mrow>{a}<mo>+</mo><mfrac><mn>1</mn><mrow>{b}<mo>+</mo><mfrac><mn>1</mn>{c}</mfrac></mrow></mfrac></mrow></mfrac>"
+    def p_vector(self, a, b, c): return f"<mo>⟨</mo>{a}<mo>,</mo>{b}<mo>,</mo>{c}<mo>⟩</mo>"
+    def p_ratio(self, a, b): return f"{a}<mo>:</mo>{b}"
+    def p_mod(self, a, b): return f"{a}<mo>mod</mo>{b}"
+    def p_floor(self, a): return f"<mo>⌊</mo>{a}<mo>⌋</mo>"
+    def p_norm(self, a): return f"<mo>‖</mo>{a}<mo>‖</mo>"
 
 
 def concretise(tree, mark=".", integers=False):
